@@ -816,7 +816,11 @@ func runSrvReqStdio(c *hk.Ctx) {
 }
 
 func runServerRequests(c *hk.Ctx) {
-	runSrvReqStreamable(c)
-	runSrvReqSSE(c)
-	runSrvReqStdio(c)
+	for _, fn := range []func(*hk.Ctx){runSrvReqStreamable, runSrvReqSSE, runSrvReqStdio} {
+		if outOfTime() {
+			c.Tag("serverReq-skipped-out-of-time")
+			continue
+		}
+		fn(c)
+	}
 }
